@@ -59,6 +59,9 @@ func TestGenC20(t *testing.T) {
 			prevRT := m.GetResendTimeout()
 			o.line("I %d %d", int64(prevRT), int64(m.GetHandshakeTimeout()))
 			base := prevRT
+			// independent bookkeeping of which responses are fresh samples (packets sent once, not retransmitted)
+			var synAt time.Time
+			dataAt := map[uint8]time.Time{}
 			for i := 0; i < nops; i++ {
 				var desc string
 				mayChange := false
@@ -70,12 +73,47 @@ func TestGenC20(t *testing.T) {
 					m.Sent(mkMsg(k, seq), resent)
 					desc = fmt.Sprintf("S %s %d %d", k, seq, b2i(resent))
 					mayChange = k == "data" && resent
+					switch {
+					case k == "syn" && !resent:
+						synAt = time.Now()
+					case k == "syn":
+						synAt = time.Time{}
+					case k == "data" && !resent:
+						dataAt[seq] = time.Now()
+					case k == "data":
+						delete(dataAt, seq)
+					}
 				case a < 7:
 					k := kinds[rr.pick([]int{0, 1, 3, 3, 3, 3, 2, 4, 5})]
 					seq := uint8(rr.pick([]int{0, 1, 2, 3, 3, 254}))
+					var sample time.Duration = -1
+					switch {
+					case (k == "syn" || k == "synack") && !synAt.IsZero():
+						sample = time.Since(synAt)
+						synAt = time.Time{}
+					case k == "ack":
+						if t0, ok := dataAt[seq]; ok {
+							delete(dataAt, seq)
+							if freq == 1 {
+								sample = time.Since(t0)
+							}
+						}
+					}
 					m.Received(mkMsg(k, seq))
 					desc = fmt.Sprintf("R %s %d", k, seq)
 					mayChange = k == "syn" || k == "synack" || k == "ack"
+					if sample >= 0 && !static && mult <= 5 {
+						want := time.Duration(mult) * sample
+						if want < time.Second {
+							want = time.Second
+						}
+						got := m.GetResendTimeout()
+						q.check(got == want, "c20:fresh-sample-does-not-give-the-measured-value", func() string {
+							return fmt.Sprintf("history c%d op %d `%s`: a response to a packet that was sent once arrived after %v (multiplier %d): the resend timeout must be %v, it is %v (timeout before: %v)",
+								h, i, desc, sample, mult, want, got, prevRT)
+						})
+						q.stat("fresh_samples_checked", 1)
+					}
 				default:
 					dt := time.Duration(rr.pick([]int{0, 1, 1000000, 999000000, 1000000000, 1500000000, 7000000000, 250000000}))
 					time.Sleep(dt)
